@@ -580,6 +580,8 @@ def _str(I, args, kwargs):
         return str(v)
     if isinstance(v, int):
         return str(v)
+    if isinstance(v, ExcVal) and len(v.args) == 1 and isinstance(v.args[0], str):
+        return v.args[0]                     # str(exception) is its single message argument
     return SStr([("v", v)])
 
 
@@ -1635,3 +1637,9 @@ def _math_sqrt(I, args, kwargs):
             return r
     USED.add("math.sqrt: uninterpreted real function (exact for perfect squares)")
     return _sqrt_fun(I.ctx)(ops.as_real(x))
+
+
+@lib("sklearn.ensemble._base._partition_estimators")
+def sk_partition_estimators(I, args, kwargs):
+    USED.add("sklearn _partition_estimators(n_estimators, n_jobs): (number of jobs, per-job counts, starts) -- scheduling only, opaque")
+    return SList([Opaque("n_jobs (effective)"), Opaque("n_estimators per job"), Opaque("starts")], "tuple")
